@@ -569,7 +569,7 @@ def edit_catalogue(prog, rng):
         for vn in f["reads"]:
             p2 = copy.deepcopy(prog)
             old = p2["modules"][mod]["vars"][vn]
-            new = rng.choice([v for v in VAR_VALUES if v != old])
+            new = rng.choice([v for v in VAR_VALUES if V.canon(v) != V.canon(old)])      # (not a value dds_hash identifies with the old one: bool = int, list = tuple are documented)
             p2["modules"][mod]["vars"][vn] = new
             out.append(("var", {"mod": mod, "name": vn, "value": new, "readers": [[mod, name]]}, p2))
         for i, st in enumerate(f["stmts"]):
@@ -577,7 +577,7 @@ def edit_catalogue(prog, rng):
                 for j, e in enumerate(st["pos"]):
                     if e[0] == "lit":
                         p2 = copy.deepcopy(prog)
-                        new = rng.choice([v for v in LIT_VALUES if v != e[1]])
+                        new = rng.choice([v for v in LIT_VALUES if V.canon(v) != V.canon(e[1])])
                         find_func(p2, mod, name)["stmts"][i]["pos"][j] = ["lit", new]
                         out.append(("literal", {"fn": [mod, name], "stmt": i, "pos": j}, p2))
                     elif e[0] == "computed" and e[1][0] in "+-~":
@@ -593,6 +593,8 @@ def edit_catalogue(prog, rng):
                     if e[0] == "lit":
                         p2 = copy.deepcopy(prog)
                         new = LIT_VALUES[(LIT_VALUES.index(e[1]) + 1 + j) % len(LIT_VALUES)] if e[1] in LIT_VALUES else LIT_VALUES[0]
+                        if V.canon(new) == V.canon(e[1]):
+                            new = LIT_VALUES[(LIT_VALUES.index(new) + 1) % len(LIT_VALUES)]
                         find_func(p2, mod, name)["stmts"][i]["args"][j] = ["lit", new]
                         out.append(("literal", {"fn": [mod, name], "stmt": i, "arg": j, "plain_call": True}, p2))
     # edits outside every cone
@@ -624,7 +626,7 @@ def edit_catalogue(prog, rng):
         for vn in m["vars"]:
             if vn not in readers:
                 p2 = copy.deepcopy(prog)
-                p2["modules"][mod]["vars"][vn] = rng.choice([v for v in VAR_VALUES if v != m["vars"][vn]])
+                p2["modules"][mod]["vars"][vn] = rng.choice([v for v in VAR_VALUES if V.canon(v) != V.canon(m["vars"][vn])])
                 out.append(("unread-var", {"mod": mod, "name": vn}, p2))
                 break
     return out
